@@ -236,6 +236,116 @@ def damage_encdoc(rng, enc, what=None):
     return sx_print(doc), what
 
 
+def hist_obj(rng, ids, depth=0):
+    """object AST of gen/histgen.py (its plain serialiser writes only bytes that need no escaping)"""
+    k = rng.random()
+    if k < 0.2: return ('i', rng.choice([0, 1, -7, 42, 2 ** 31, -2 ** 63, rng.randint(-10 ** 6, 10 ** 6)]))
+    if k < 0.3: return ('n', rng.choice([b'Name', b'A', b'Font', b'XYZ', b'Prev', b'XRef']))
+    if k < 0.45: return ('s', bytes(rng.choice(b'abcdefgh XYZ09') for _ in range(rng.randint(0, 12))))
+    if k < 0.5: return ('h', bytes(rng.randrange(256) for _ in range(rng.randint(0, 6))))
+    if k < 0.55: return rng.choice([('null',), ('b', True), ('b', False)])
+    if k < 0.65 and ids: return ('ref', rng.choice(ids), rng.choice([0, 0, 1]))
+    if depth < 2 and k < 0.8:
+        return ('a', [hist_obj(rng, ids, depth + 1) for _ in range(rng.randint(0, 4))])
+    if depth < 2:
+        keys = rng.sample([b'A', b'B', b'Kids', b'V', b'Ty', b'Next', b'Prev', b'Size'], rng.randint(0, 4))
+        return ('d', [(key, hist_obj(rng, ids, depth + 1)) for key in keys])
+    return ('i', depth)
+
+
+def hist_top(rng, ids):
+    import histgen
+    if rng.random() < 0.25:
+        content = rng.choice(TRICKY_BODIES + [bytes(rng.choice(b'BT ET q Q 0123456789\n') for _ in range(rng.randint(0, 30)))])
+        return histgen.stream([(b'K', ('i', rng.randint(0, 9)))] if rng.random() < 0.5 else [], content)
+    return hist_obj(rng, ids)
+
+
+def gen_hist_files(rng, n):
+    """files with 2-5 revisions APPENDED BY HAND (gen/histgen.py, the reference writer of C07): cross-reference tables and
+    streams mixed from revision to revision, replaced / added / freed objects, generation bumps; a few with object
+    streams or hybrid sections (the loaded document then holds ObjStm containers: correspondence, verdict skip)"""
+    import histgen
+    files = []
+    for _ in range(n):
+        m = rng.randint(2, 9)
+        ids = list(range(1, m + 1))
+        nrev = rng.choice([2, 2, 3, 3, 4, 5])
+        with_os = rng.random() < 0.15
+        live = {}
+        revs = []
+        for rn in range(nrev):
+            style = rng.choice(['table', 'stream'])
+            if with_os and rng.random() < 0.3:
+                style = 'hybrid'
+            if rn == 0:
+                chosen = [1] + rng.sample(ids[1:], rng.randint(1, len(ids) - 1))
+            else:
+                old, new = list(live), [i for i in ids if i not in live]
+                chosen = rng.sample(old, rng.randint(0, min(3, len(old)))) + rng.sample(new, rng.randint(0, min(2, len(new))))
+                if not chosen:
+                    chosen = [rng.choice(ids)]
+            puts, dels = [], []
+            for i in chosen:
+                o = ('d', [(b'Type', ('n', b'Catalog')), (b'Pages', ('ref', 2, 0))]) if (i == 1 and rn == 0) else hist_top(rng, ids)
+                place = 'plain'
+                if with_os and style != 'table' and o[0] != 'st' and rng.random() < 0.6:
+                    place = rng.choice([0, 0, 1])
+                g = 0
+                if place == 'plain':
+                    g = live.get(i, rng.choice([0, 0, 0, 0, 1, 3]))
+                    if i in live and rng.random() < 0.2:
+                        g = live[i] + 1
+                live[i] = g
+                puts.append((i, g, o, place))
+            if rn > 0 and rng.random() < 0.3:
+                cand = [i for i in live if i != 1 and i not in [q[0] for q in puts]]
+                for i in rng.sample(cand, min(len(cand), 1)):
+                    dels.append((i, live[i] + 1))
+                    del live[i]
+            rng.shuffle(puts)
+            revs.append(histgen.Rev(style, puts, dels))
+        outs = histgen.assemble(revs, (1, 0), junk=rng.choice([b'', b'', b'', b'junk before the header\n']),
+                                version=rng.choice([b'1.5', b'1.4', b'1.7', b'2.0']), entry0=rng.random() < 0.8, upto=[nrev])
+        files.append(('os' if with_os else 'plain', outs[-1]['bytes']))
+    return files
+
+
+def gen_hist_cases(rng, tier, impl, reals):
+    """rt-hist: the property on documents OBTAINED BY LOADING a file with several cross-reference sections (seeded C01/p1:
+    what the loader leaves in the trailer of such a document -- Prev -- goes into the next save).  Two sources of files:
+    (a) generated documents of the domain saved by lopdf and updated 1-3 times through IncrementalDocument (hist-prep:
+    set_object on existing identifiers, add_object), (b) revisions appended by hand.  Each file is loaded, the loaded
+    document saved in BOTH formats, loaded, compared, and cycled a second time."""
+    cases = []
+    n_inc = 28 if tier == 'quick' else 600
+    prep = []
+    for k in range(n_inc):
+        fmt, doc = gen_doc(rng, reals, True)
+        ids = [(int(io[0][0]), int(io[0][1])) for io in sx_parse(doc)[4][1:]]
+        g = ObjGen(rng, reals, allow_ref=True)
+        revs = []
+        for _ in range(rng.choice([1, 1, 2, 3])):
+            edits = []
+            for _ in range(rng.choice([0, 1, 1, 2, 3])):
+                if ids and rng.random() < 0.55:
+                    edits.append(L('set', OID(*rng.choice(ids)), robject(rng, g, True)))
+                else:
+                    edits.append(L('add', robject(rng, g, True)))
+            revs.append(L('rev', *edits))
+        prep.append(g.finish(L('hist-prep', fmt, doc, *revs)))
+    files = []
+    for line, o in zip(prep, vlib.run_lines(impl, prep, timeout=600, shards=8)):
+        m = re.match(r'^\(histfile x([0-9a-f]*)\)', o)
+        if m:
+            files.append(('inc-' + line.split(' ')[1], bytes.fromhex(m.group(1))))
+    files += [('appended-' + k, f) for k, f in gen_hist_files(rng, 20 if tier == 'quick' else 400)]
+    for kind, f in files:
+        for fmt in ('table', 'stream'):
+            cases.append((L('rt-hist', fmt, xb(f)), {'kind': 'rt-hist-%s-to-%s' % (kind, fmt), 'nontrivial': True}))
+    return cases
+
+
 _MEMO = {}
 
 
@@ -518,6 +628,7 @@ def gen_cases(rng, tier):
         for f in (b'', b'%PDF-1.4', b'%PDF-1.5\n%%EOF\n', b'%PDF-1.4\nstartxref\n0\n%%EOF', b'x' * 40 + b'\nstartxref\n5\n%%EOF',
                   b'%PDF-\xff\n' + b' ' * 30 + b'startxref\n0\n%%EOF'):
             cases.append((L('load', xb(f)), {'kind': 'load-fixed', 'nontrivial': True}))
+        cases += gen_hist_cases(rng, tier, impl, reals)
     _MEMO[key] = cases
     return cases
 
